@@ -25,7 +25,7 @@ RULE = ("one evaluation = one execution of a CLI task with one fault plan (fault
         "actually fired (process died / error raised at that point).  One 'run' = one workload = task x generated "
         "inputs x options x pre-state (clean, stale complete output, stale temp file, both).")
 STATE_MEASURE = "distinct (task, prestate, fault kind, label class, outcome class) tuples"
-PROBES = ["failed_task_followed_by_unrelated_task_in_process", "kill_between_last_write_and_rename", "kill_after_rename", "stale_output_survived_crash",
+PROBES = ["failed_task_repeated_in_process", "failed_task_followed_by_unrelated_task_in_process", "kill_between_last_write_and_rename", "kill_after_rename", "stale_output_survived_crash",
           "stale_temp_present_at_start", "task_raised_on_injected_error", "restart_after_crash_succeeded",
           "restart_after_crash_failed", "multi_output_partial_rename", "crash_restart_sequence", "task_refuses_prestate", "restart_judged",
           "partial_leftover_at_output_path", "partial_leftover_untouched_before_start",
@@ -261,7 +261,14 @@ def _grandchild(wl, planmap, report_path, clock_start, follow=False):
                 rep["injected"] = isinstance(e, faultfs.InjectedIOError) or "injected fault" in str(e)
                 code = 1
             seam.enabled = False
-            if follow and code == 1:
+            if follow == "retry" and code == 1:
+                # the same process calls the same task again with the same arguments (nothing is injected any more)
+                try:
+                    wl.call_task()
+                    rep["followed"] = "retry_ok"
+                except BaseException as e2:  # noqa
+                    rep["followed"] = f"retry raised {type(e2).__name__}: {str(e2)[:200]}"
+            elif follow and code == 1:
                 # the same process (a GUI, a script that handles several files) goes on with another, unrelated task that
                 # writes somewhere else and succeeds
                 try:
@@ -392,6 +399,9 @@ def select_plans(labels, tier, r, task=None):
     # a failed run followed, in the same process, by an unrelated task that succeeds (what the failed one left must stay what it is)
     for _ in range(max(3, cap // 12)):
         plans.append([{"at": r.randrange(n), "kind": r.choice(["err_before", "err_after", "err_before", "intr_before"]), "follow": True}])
+    for _ in range(max(3, cap // 12)):
+        # ... or by a repetition of the same call in the same process
+        plans.append([{"at": r.randrange(n), "kind": r.choice(["err_before", "err_after", "err_before", "intr_before"]), "follow": "retry"}])
     # a failed or killed run followed by a fault-free restart of the same task (stale temporary files of the first run)
     for _ in range(max(3, cap // 12)):
         plans.append([{"at": r.randrange(n), "kind": r.choice(["err_before", "err_after", "err_before", "kill_before"])},
@@ -496,10 +506,8 @@ def run(trace, ctx):
         crashed_before = False
         for step_i, f in enumerate(seq):
             k, kind = int(f["at"]), f["kind"]
-            st, rep = _grandchild(wl, ({k: kind} if kind != "none" else {}), report, clock_start, follow=bool(f.get("follow")))
+            st, rep = _grandchild(wl, ({k: kind} if kind != "none" else {}), report, clock_start, follow=f.get("follow") or False)
             ctx.count("evaluations")
-            if rep and rep.get("followed") is True:
-                ctx.probe("failed_task_followed_by_unrelated_task_in_process")
             lab = (labels[k] if 0 <= k < len(labels) else "(beyond end)") if kind != "none" else "(fault-free restart)"
             if kind == "none":
                 ctx.probe("restart_judged")
@@ -515,6 +523,22 @@ def run(trace, ctx):
             if step_i > 0:
                 ctx.probe("crash_restart_sequence")
             ctx.log("fault", f"{k}:{kind}:{label_class(lab)}", outcome)
+            if rep and rep.get("followed") is True:
+                ctx.probe("failed_task_followed_by_unrelated_task_in_process")
+            if rep and rep.get("followed") == "retry_ok":
+                ctx.probe("failed_task_repeated_in_process")
+                # the repetition returned normally: every output must be the complete result
+                for rel in outputs:
+                    p_ = wl.work / rel
+                    ctx.checked()
+                    if not p_.exists() or h5digest.h5_digest(p_) != ref_digest[rel]:
+                        ctx.violation("C10.partial_output",
+                                      f"{task}: after {kind} at point {k} ({lab}) the task was called again in the same process and returned "
+                                      f"normally, but output '{rel}' is {'missing' if not p_.exists() else 'not the complete result'}",
+                                      sig=dict(task=task, kind=kind, label=label_class(lab), prestate=t["prestate"], retry=True),
+                                      trace=dict(t, faults=[seq[:step_i + 1]]))
+            elif rep and str(rep.get("followed", "")).startswith("retry raised"):
+                ctx.probe("in_process_repetition_refused")
             vtrace = dict(t)
             vtrace["faults"] = [seq[:step_i + 1]]
             sig = {"task": task, "kind": kind, "label": label_class(lab), "prestate": t["prestate"]}
